@@ -784,12 +784,20 @@ def _norm(u, opts, **over):
         return ("raised", type(e).__name__)
 
 
+_CTRL_RE = re.compile("[\x00-\x1f\x7f-\x9f]")
+
+
+def _cleaned(u):
+    return _CTRL_RE.sub("", u).strip()
+
+
 def _step_hint(b, v, opts, t):
     from ural import infer_redirection
 
     # whitespace / control characters around the URL: infer_redirection looks at the cleaned
-    # string (FX-C04-RELBASE), a difference there is never this class
-    if t is not None and t[0] == "ws":
+    # string (FX-C04-RELBASE), a difference between two strings with the same cleaned form is
+    # never this class
+    if (t is not None and t[0] == "ws") or _cleaned(b) == _cleaned(v):
         return False
     if infer_redirection(b) == b and infer_redirection(v) == v:
         return False
